@@ -1063,6 +1063,7 @@ class TransportLayerLogic:
                     if self.active_send_request.generator.depleted():
                         read_tx_queue = True  # Read another frame from tx_queue
                         self.active_send_request.complete(True)
+                        self.active_send_request = None
                     else:
                         size_on_first_byte = (self.active_send_request.generator.remaining_size() + len(self.address.get_tx_payload_prefix())) <= 7
                         size_offset = 1 if size_on_first_byte else 2
@@ -1087,6 +1088,7 @@ class TransportLayerLogic:
                                     self.tx_state = self.TxState.TRANSMIT_SF_STANDBY
                                 else:
                                     output_msg = msg_temp
+                                    self._stop_sending(success=True)
 
                             # Multi frame - First Frame
                             else:
@@ -1132,7 +1134,7 @@ class TransportLayerLogic:
                         self._start_rx_fc_timer()
                         self.tx_state = self.TxState.WAIT_FC    # After a first frame, we wait for flow control
                     else:
-                        self.tx_state = self.TxState.IDLE   # After a single frame, there's nothing to do
+                        self._stop_sending(success=True)   # After a single frame, there's nothing to do
 
         elif self.tx_state == self.TxState.WAIT_FC:
             pass  # Nothing to do. Flow control will make the FSM switch state by calling init_tx_consecutive_frame
